@@ -90,6 +90,7 @@ class Verifier:
         self.unsupported = {}
         self.dump_dir = None
         self.native_only = {}
+        self.backends = {}
         self.seq = 0
         self.I.prove_hook = self.check_goal
         self.install_dsl()
@@ -555,6 +556,13 @@ class Verifier:
             r = STATS.timed(lambda: s.check())
             self.note_rlimit(s, 'qf', r)
             if r == z3.unsat:
+                self.backends['z3'] = self.backends.get('z3', 0) + 1
+                if os.environ.get('PYVC_TIER') == 'thorough':
+                    # second back end on the same verification condition
+                    v2 = self.cvc5_verdict(I.pc, neg, 20000)
+                    self.backends['cvc5-' + v2] = self.backends.get('cvc5-' + v2, 0) + 1
+                    if v2 == 'sat':
+                        return 'unknown', None   # back ends disagree: never a pass
                 return 'unsat', None
             if r == z3.sat:
                 return 'sat', self.minimise(s)
@@ -565,6 +573,7 @@ class Verifier:
             r0 = STATS.timed(lambda: s0.check())
             self.note_rlimit(s0, f'q0s{seed}', r0)
             if r0 == z3.unsat:
+                self.backends['z3-ematching'] = self.backends.get('z3-ematching', 0) + 1
                 return 'unsat', None
         s = mk(True, 0, Q_RLIMIT)
         r = STATS.timed(lambda: s.check())
@@ -575,7 +584,7 @@ class Verifier:
             return 'sat', self.minimise(s)
         # second back end
         if self.cvc5_refutes(I.pc, neg):
-            self.backend_used = 'cvc5'
+            self.backends['cvc5'] = self.backends.get('cvc5', 0) + 1
             return 'unsat', None
         # unknown (quantifiers): look for a small counterexample by finite grounding
         st = self.state
@@ -603,7 +612,10 @@ class Verifier:
         return 'unknown', None
 
     def cvc5_refutes(self, pc, neg):
-        import subprocess, tempfile, os
+        return self.cvc5_verdict(pc, neg, 60000) == 'unsat'
+
+    def cvc5_verdict(self, pc, neg, tlimit_ms):
+        import subprocess, tempfile
         s = z3.Solver()
         for f in pc:
             s.add(f)
@@ -614,13 +626,14 @@ class Verifier:
                 f.write(txt)
                 path = f.name
             try:
-                p = subprocess.run(['cvc5', '--lang', 'smt2', '--tlimit=60000', path], capture_output=True, text=True,
-                                   timeout=90)
-                return p.stdout.strip().splitlines()[:1] == ['unsat']
+                p = subprocess.run(['cvc5', '--lang', 'smt2', f'--tlimit={tlimit_ms}', path], capture_output=True,
+                                   text=True, timeout=tlimit_ms / 1000 + 30)
+                out = p.stdout.strip().splitlines()[:1]
+                return out[0] if out and out[0] in ('unsat', 'sat') else 'unknown'
             finally:
                 os.remove(path)
         except Exception:
-            return False
+            return 'unknown'
 
     def note_rlimit(self, s, kind, r):
         try:
@@ -838,6 +851,7 @@ class Verifier:
                 if kind == 'raise':
                     raise Unsupported(f'contract function raised {payload!r}')
         except (Unsupported, MergeFail, RecursionError) as e:
+            if os.environ.get("PYVC_DEBUG"): traceback.print_exc()
             self.unsupported[spec.name] = f'{type(e).__name__}: {e}'
             for k in set(self.results) - before:
                 del self.results[k]
